@@ -214,8 +214,14 @@ LOOP:
 			if offset > hw {
 				break LOOP
 			}
+			key := ms.Message().Key()
+			if key == nil {
+				// Messages with no key are always retained. Don't track them
+				// because a nil key and an empty key map to the same string.
+				continue
+			}
 			curr, loaded := keyOffsets.LoadOrStore(
-				string(ms.Message().Key()), &keyOffset{offset: offset})
+				string(key), &keyOffset{offset: offset})
 			if loaded {
 				curr.(*keyOffset).set(offset)
 			}
